@@ -21,6 +21,11 @@ SHAPES = [
 ]
 
 
+def has_thunk(p):
+    """every second package name (decided without the seeded stream): closures of no / one / two parameters in the package"""
+    return sum(map(ord, p)) % 2 == 0
+
+
 def lib_source(rng, p, deps, feats):
     lo = p.lower()
     k1, k2 = rng.randint(2, 9), rng.randint(1, 5)
@@ -59,8 +64,11 @@ def lib_source(rng, p, deps, feats):
     out.append("fn %s_arr(n: int32) -> int32 { let a = [n, n + 1, n + 2]; let v: Vec[int32] = vec_new(); let v = vec_push(vec_push(v, array_get(a, 1)), array_get(a, 2)); vec_get(v, 0) * vec_len(v) + (n, (n + 1, true)).0 }" % lo)
     # shapes whose serialised form has an empty or optional part: closures of no, one and several parameters, an empty tuple
     # of captures, unit values, an empty array-free Vec, a function with no parameters
-    out.append("fn %s_unitf() -> unit { () }" % lo)
-    out.append("fn %s_thunk(n: int32) -> int32 { let base = n + %d; let th = || base * 2; let k0 = || %d; let two = |a: int32, b: int32| a - b; let u = %s_unitf(); let ev: Vec[int32] = vec_new(); th() + k0() + two(n, 1) + vec_len(ev) }" % (lo, k1, k2, lo))
+    if not has_thunk(p):
+        out.append("fn %s_thunk(n: int32) -> int32 { n }" % lo)
+    else:
+      out.append("fn %s_unitf() -> unit { () }" % lo)
+      out.append("fn %s_thunk(n: int32) -> int32 { let base = n + %d; let th = || base * 2; let k0 = || %d; let two = |a: int32, b: int32| a - b; let u = %s_unitf(); let ev: Vec[int32] = vec_new(); th() + k0() + two(n, 1) + vec_len(ev) }" % (lo, k1, k2, lo))
     if deps:
         d = deps[0]
         # a value of a type of the dependency handed on to this package's importers (who may not import the dependency)
@@ -112,7 +120,6 @@ def gen_project(rng):
             "string_println(int32_to_string(%s::%s_spat(%s::%s_mk(%d))))" % (d, lo, d, lo, n),
             "string_println(int32_to_string(%s::%s_clo(%d)))" % (d, lo, n),
             "string_println(int32_to_string(%s::%s_arr(%d)))" % (d, lo, n),
-            "string_println(int32_to_string(%s::%s_thunk(%d)))" % (d, lo, n),
         ]
         if shape[d]:
             cands += ["string_println(%s::%s_via(%d))" % (d, lo, n), "string_println(int32_to_string(%s::%s_gen(%d)))" % (d, lo, n)]
@@ -130,6 +137,7 @@ def gen_project(rng):
             cands.append("let dv%s%d: %s::%sS = %s::%s_mk(%d); let dy%s%d: dyn %s::%sT = dv%s%d; let _ = string_println(%s::%sT::show(dy%s%d))" % (lo, n, d, d, d, lo, n, lo, n, d, d, lo, n, d, d, lo, n))
         for c in rng.sample(cands, min(len(cands), rng.randint(3, 8))):
             stmts.append("    let _ = %s;" % c if not c.startswith("let") else "    %s;" % c)
+        stmts.append("    let _ = string_println(int32_to_string(%s::%s_thunk(%d)));" % (d, lo, n))  # (drawn outside the sample: the seeded stream stays as it was)
     # a package that only declares types (no function bodies), used by Main
     if rng.random() < 0.5:
         feats.add("types-only-package")
